@@ -2,6 +2,7 @@ import Driver.Codec
 import Driver.KindCmd
 import Driver.ParseCmd
 import Driver.C03Cmd
+import Driver.PrintCmd
 /-!
 Line-protocol driver: one request per line on stdin, one reply per line on stdout.
 The first word selects the model component; see DESIGN.md §2.4.
@@ -13,6 +14,7 @@ def handle (line : String) : String :=
   | "kind" :: args => kindCmd args
   | "parse" :: args => parseCmd args
   | "c03" :: args => c03Cmd args
+  | "print" :: args => printCmd args
   | _ => "bad-op"
 
 partial def loop (hin : IO.FS.Stream) (hout : IO.FS.Stream) : IO Unit := do
